@@ -174,6 +174,7 @@ def check_case(bitfield_mod, case, success_clause="auto_placement_should_succeed
 
     bf = BitField(L)
     defined = []
+    placed = {}
     given = [set() for _ in range(n)]
     steps = history_steps(case)
     n_assign = sum(1 for s in steps if s[0] == "assign")
@@ -194,7 +195,7 @@ def check_case(bitfield_mod, case, success_clause="auto_placement_should_succeed
                         if hi > L or lo >= L:
                             why_ok = "overflow"
                         for j in defined:
-                            sj, lj = F[j]["start_at"], F[j]["length"]
+                            sj, lj = placed.get(j, (F[j]["start_at"], F[j]["length"]))
                             if sj is not None and co_present(parents, i, j) and lo < sj + (lj or 1) and sj < hi:
                                 why_ok = "overlap"
                     if why_ok is None:
@@ -217,6 +218,8 @@ def check_case(bitfield_mod, case, success_clause="auto_placement_should_succeed
                     status = "rejected_assign"
                     assign_error = str(e)
                     break
+                for j in defined:       # positions now fixed (as reported by the object itself)
+                    placed[j] = scope_of(bf, j).get_location_and_length(name[j])
     except Exception as e:      # noqa
         bad.append(("unexpected_exception", "%s: %s" % (type(e).__name__, e)))
         return "error", bad, 0
@@ -518,11 +521,11 @@ def run(tier="quick", seed=0):
                     specs = [(widths[i], None) if fixed[i] else (None, None) for i in range(n)]
                     go(make_case(L, parents, specs, [(1 << w) - 1 for w in widths], reuse=bool(ev & 16), history="interleaved" if ev & 32 else "plain", style=ev % 8), "D%d" % n)
     for L in (32, 64):      # "a few" long bit fields, filled to the last bit
-        for widths in ((L,), (L // 2, L // 2), (1, L - 1), (L - 8, 4, 4), (8, 8, 8, L - 24)):
-            for parents in ([None] * len(widths), [None] + [(0, 1)] * (len(widths) - 1)):
-                if parents[1:] and parents[1] is not None:
-                    widths = (1,) + widths[1:-1] + (widths[-1] + widths[0] - 1,) if len(widths) > 1 else widths
-                go(make_case(L, tuple(parents), [(None, None)] * len(widths), [(1 << w) - 1 for w in widths]), "D_long")
+        for parents, widths in (((None,), (L,)), ((None, None), (L // 2, L // 2)), ((None, None), (1, L - 1)),
+                                ((None, None, None), (L - 8, 4, 4)), ((None, None, None, None), (8, 8, 8, L - 24)),
+                                ((None, (0, 1)), (1, L - 1)), ((None, (0, 0), (0, 1)), (2, L - 2, L - 2)),
+                                ((None, (0, 1), (1, 0), (0, 0)), (1, 1, L - 2, L - 1))):
+            go(make_case(L, parents, [(None, None)] * len(widths), [(1 << w) - 1 for w in widths]), "D_long")
 
     # (E) extension beyond the 4-field bound, all-automatic only: every structure/order with 5 fields, widths drawn
     n5 = structures(5)
